@@ -126,11 +126,30 @@ class Ctx:
         cmd_desc = f"cd lean && lake build {' '.join(targets)} && lake env lean <audit of {' '.join(modules)}>"
         ok = True
         with Lock("lake"):
+            if getattr(self, "_regen_wanted", False):
+                # regenerated tie: regenerate again under the SAME lock hold as the build, so that a
+                # concurrent check running against another tree (VERIF_REPO) cannot swap SV/Gen/*
+                # between generation and build
+                self._regen_go2lean_locked(record=False)
             rc, out = sh(["lake", "build"] + targets, cwd=LEAN, timeout=3600)
             if rc != 0:
                 ok = False
                 self.log("lake build FAILED")
                 print(out[-6000:])
+                # name the theorems that no longer check (enclosing declaration of each error line)
+                for fn_, ln_ in sorted(set(re.findall(r"^error: (SV/Props/\S+?\.lean):(\d+):", out, re.M))):
+                    try:
+                        lines_ = open(os.path.join(LEAN, fn_)).read().split("\n")[:int(ln_)]
+                    except OSError:
+                        continue
+                    for l_ in reversed(lines_):
+                        m_ = re.match(r"\s*(?:private\s+|protected\s+)?(?:theorem|example|def|lemma)\s+(\S+)", l_)
+                        if m_:
+                            nm_ = m_.group(1) if m_.group(1) != ":" else f"example(line {ln_})"
+                            tag_ = f"lean-theorem:{fn_[:-5].replace('/', '.')}:{nm_}"
+                            if tag_ not in self.broken:
+                                self.broken.append(tag_)
+                            break
                 # which modules broke
                 for m in re.findall(r"^- (\S+)", out, re.M):
                     self.broken.append(f"lean-build:{m}")
@@ -216,40 +235,112 @@ class Ctx:
         return ok
 
     # ------------------------------------------------------------------ regenerated tie
-    GO2LEAN_SPECS = [
-        "fs/remote/blob.go:floor:remote_floor", "fs/remote/blob.go:ceil:remote_ceil",
-        "fs/remote/blob.go:positive:remote_positive", "fs/remote/util.go:region.size:remote_region_size",
-        "fs/reader/reader.go:chunkContains:reader_chunkContains", "fs/reader/reader.go:positive:reader_positive",
-        "estargz/estargz.go:positive:estargz_positive",
-        "cmd/containerd-stargz-grpc/db/reader.go:positive:db_positive",
-    ]
+    # area -> specs; one generated file lean/SV/Gen/<Area>.lean per area.
+    # spec = <file>:<func>[:<leanName>] | <file>:=<CONST>[:<leanName>]   (see tools/go2lean/main.go)
+    # Area "Arith" keeps the namespace SV.Gen (its theorems are Props/C06gen, C04gen); every other
+    # area lives in SV.Gen.<Area>.
+    GO2LEAN_SPECS = {
+        "Arith": [
+            "fs/remote/blob.go:floor:remote_floor", "fs/remote/blob.go:ceil:remote_ceil",
+            "fs/remote/blob.go:positive:remote_positive", "fs/remote/util.go:region.size:remote_region_size",
+            "fs/reader/reader.go:chunkContains:reader_chunkContains", "fs/reader/reader.go:positive:reader_positive",
+            "estargz/estargz.go:positive:estargz_positive",
+            "cmd/containerd-stargz-grpc/db/reader.go:positive:db_positive",
+        ],
+        "Remote": [   # theorems: Props/C06gen2
+            "fs/remote/util.go:region.size:region_size", "fs/remote/util.go:regionSet.totalSize:totalSize",
+            "fs/remote/util.go:superRegion:superRegion",
+        ],
+        "Fs": [       # theorems: Props/C07gen2
+            "fs/layer/node.go:fileModeToSystemMode:fileModeToSystemMode",
+            "fs/layer/node.go:=blockSize", "fs/layer/node.go:=physicalBlockSize", "fs/layer/node.go:=physicalBlockRatio",
+            "fs/layer/node.go:=whiteoutPrefix", "fs/layer/node.go:=whiteoutOpaqueDir", "fs/layer/node.go:=opaqueXattrValue",
+            "fs/layer/node.go:=stateDirName", "fs/layer/node.go:=statFileMode", "fs/layer/node.go:=stateDirMode",
+        ],
+        "Estargz": [  # theorems: Props/C04gen2 (footer sizes), C03gen2 + C07gen2 (reserved names), C14gen2 (writer)
+            "estargz/types.go:=FooterSize", "estargz/types.go:=legacyFooterSize", "estargz/types.go:=TOCTarName",
+            "estargz/types.go:=PrefetchLandmark", "estargz/types.go:=NoPrefetchLandmark", "estargz/types.go:=landmarkContents",
+            "estargz/zstdchunked/zstdchunked.go:=FooterSize:zstdFooterSize",
+            "estargz/externaltoc/externaltoc.go:=FooterSize:extFooterSize",
+            "estargz/gzip.go:GzipDecompressor.FooterSize:gzipDecompressor_FooterSize",
+            "estargz/gzip.go:LegacyGzipDecompressor.FooterSize:legacyGzipDecompressor_FooterSize",
+            "estargz/zstdchunked/zstdchunked.go:Decompressor.FooterSize:zstdDecompressor_FooterSize",
+            "estargz/externaltoc/externaltoc.go:GzipDecompressor.FooterSize:extDecompressor_FooterSize",
+            "estargz/estargz.go:Writer.chunkSize:writer_chunkSize",
+        ],
+        "Labels": [   # theorems: Props/C20gen2
+            "fs/source/source.go:=targetRefLabel", "fs/source/source.go:=targetDigestLabel",
+            "fs/source/source.go:=targetImageLayersLabel", "fs/source/source.go:=targetImageURLsLabelPrefix",
+            "fs/source/source.go:=targetURLsLabel", "fs/config/config.go:=TargetPrefetchSizeLabel",
+            "service/cri.go:=targetRefLabel:criTargetRefLabel", "service/cri.go:=targetLayerDigestLabel:criTargetLayerDigestLabel",
+            "service/cri.go:=targetImageLayersLabel:criTargetImageLayersLabel",
+            "service/cri.go:=targetImageURLsLabelPrefix:criTargetImageURLsLabelPrefix",
+            "service/cri.go:=targetURLsLabel:criTargetURLsLabel",
+        ],
+    }
 
     def regen_go2lean(self):
-        """Translate the small pure arithmetic functions of the CURRENT /repo sources to Lean
-        (tools/go2lean) into lean/SV/Gen/Arith.lean.  A function that left the translatable subset
-        or disappeared is a broken tie.  The file is rewritten only when its content changes (so
-        lake does not rebuild needlessly); callers then build the SV.Props.*gen modules."""
+        """Translate the small pure functions and the constants listed in GO2LEAN_SPECS from the
+        CURRENT /repo sources to Lean (tools/go2lean) into lean/SV/Gen/<Area>.lean.  A function or
+        constant that left the translatable subset or disappeared is a broken tie: its definition
+        is omitted from the generated file (the theorem about it stops building and names it) and
+        the translator's message naming it is recorded.  Files are rewritten only when their
+        content changes (so lake does not rebuild needlessly); stale generated files are removed.
+        Callers then build the SV.Props.*gen* modules."""
+        self._regen_wanted = True
         with Lock("lake"):
+            return self._regen_go2lean_locked(record=True)
+
+    def _regen_go2lean_locked(self, record=True):
+        """Body of regen_go2lean; the caller holds the lake lock.  record=False: only rewrite the
+        files (failures were already recorded by the first call)."""
+        if True:
             binp = os.path.join(BUILD, "go2lean")
             rc, o = sh(["go", "build", "-o", binp, "."], cwd=os.path.join(VERIF, "tools", "go2lean"), env=go_env(), timeout=600)
             if rc != 0:
-                self.broken.append("go2lean-build")
-                print(o[-2000:])
+                if record:
+                    self.broken.append("go2lean-build")
+                    print(o[-2000:])
                 return False
-            p = subprocess.run([binp, REPO] + self.GO2LEAN_SPECS, stdout=subprocess.PIPE, stderr=subprocess.PIPE, text=True)
-            if p.returncode != 0:
-                self.broken.append("go2lean:" + p.stderr.strip()[-200:])
-                self.log("go2lean FAILED:", p.stderr.strip())
-                return False
-            dst = os.path.join(LEAN, "SV", "Gen", "Arith.lean")
-            os.makedirs(os.path.dirname(dst), exist_ok=True)
-            old = open(dst).read() if os.path.exists(dst) else None
-            if old != p.stdout:
-                with open(dst, "w") as f:
-                    f.write(p.stdout)
-                self.log("regenerated SV/Gen/Arith.lean from the Go sources (content changed)")
-            self.cov["translated_functions"] = len(self.GO2LEAN_SPECS)
-        return True
+            tmp = os.path.join(self.workdir, "gen")
+            shutil.rmtree(tmp, ignore_errors=True)
+            os.makedirs(tmp)
+            argv = [binp, "-out", tmp, REPO]
+            for area, specs in self.GO2LEAN_SPECS.items():
+                argv += ["@" + area] + list(specs)
+            env = go_env()
+            rcg, groot = sh(["go", "env", "GOROOT"], cwd=os.path.join(VERIF, "tools", "go2lean"), env=env, timeout=120)
+            if rcg == 0 and groot.strip():
+                env["GOROOT"] = groot.strip().split("\n")[-1]
+            p = subprocess.run(argv, stdout=subprocess.PIPE, stderr=subprocess.PIPE, text=True, env=env)
+            ok = p.returncode == 0
+            if not ok and record:
+                msgs = [l for l in p.stderr.strip().split("\n") if l.startswith("go2lean:") and " note: " not in l]
+                for l in msgs[:6] or [p.stderr.strip()[-200:]]:
+                    self.broken.append(l.strip()[:240])
+                self.log("go2lean FAILED:", p.stderr.strip()[-1500:])
+            gdir = os.path.join(LEAN, "SV", "Gen")
+            os.makedirs(gdir, exist_ok=True)
+            produced = set()
+            for area in self.GO2LEAN_SPECS:
+                srcf = os.path.join(tmp, area + ".lean")
+                if not os.path.exists(srcf):
+                    continue
+                produced.add(area + ".lean")
+                new = open(srcf).read()
+                dst = os.path.join(gdir, area + ".lean")
+                old = open(dst).read() if os.path.exists(dst) else None
+                if old != new:
+                    with open(dst, "w") as f:
+                        f.write(new)
+                    self.log(f"regenerated SV/Gen/{area}.lean from the Go sources of {REPO} (content changed)")
+            if p.returncode in (0, 1):
+                for fn in os.listdir(gdir):
+                    if fn.endswith(".lean") and fn not in produced:
+                        os.remove(os.path.join(gdir, fn))
+                        self.log(f"removed stale generated file SV/Gen/{fn}")
+            self.cov["translated_functions"] = sum(len(v) for v in self.GO2LEAN_SPECS.values())
+        return ok
 
     # ------------------------------------------------------------------ step 3 helpers
     def overlay_json(self, only=None):
@@ -409,9 +500,31 @@ class Ctx:
         # are listed known findings must not hide a broken correspondence
         new_fails = [f for f in fails if not self.is_known(f["sig"])]
         if nm and not new_fails:
+            # A disagreement with a silent oracle must REPRODUCE to count: several streams drive real
+            # goroutines (race outcomes are linearised by the harness), and a one-off disagreement that a
+            # second run with the same seed does not show is an artefact of one schedule, not evidence
+            # about the code (met once on the unchanged tree: C01, fresh sandbox, 1 line in 5910).  A
+            # deterministic disagreement reproduces and is reported as before; concrete property
+            # violations never pass through here (they are oracle failures).
+            ops2, impl2, rep2 = self.run_harness(binary, test, tag + "-rerun", env=env, timeout=timeout)
+            nm2, mism2, fails2 = -1, [], []
+            if os.path.exists(ops2) and not rep2.get("crashed"):
+                model2 = self.run_driver(exe, ops2)
+                _, mism2, nm2 = self.diff_streams(ops2, impl2, model2)
+                fails2 = [f for f in (rep2.get("oracle_failures") or []) if not self.is_known(f["sig"])]
+            if nm2 == 0 and not fails2:
+                self.cov["correspondence_mismatches"] -= nm
+                self.cov.setdefault("unreproduced_mismatches", []).append(
+                    {"tag": tag, "count": nm, "first": mism[:1]})
+                self.notes.append(f"{nm} correspondence mismatch(es) in {tag} did not reproduce on a re-run "
+                                  f"with the same seed (schedule-dependent stream); recorded, not counted")
+                return rep
+            for f in fails2:
+                self.add_violation({"kind": "oracle", "test": test, "seed": self.seed, "env": env,
+                                    "failure": f, "all_failures": fails2[:20]}, sig=f["sig"])
             self.broken.append(f"correspondence:{tag}")
             self.pending_mismatch = {"kind": "correspondence", "test": test, "seed": self.seed, "env": env,
-                                     "mismatches": mism, "count": nm}
+                                     "mismatches": mism, "count": nm, "rerun_mismatches": mism2[:3], "rerun_count": nm2}
         elif nm:
             self.notes.append(f"{nm} correspondence mismatches in {tag} (oracle failures present)")
         return rep
